@@ -429,7 +429,7 @@ def dataset_level(ctx, reqs, pend, n_sets):
         k = ctx.rng.randint(0, 5)
         mazes = [_make(ctx, "solved", ctx.rng.randint(2, 5)) for _ in range(k)]
         ds = MazeDataset(MazeDatasetConfig(name="c07", grid_n=5, n_mazes=k), mazes)
-        flavour, mode = ctx.rng.choice(["legacy", "modular", "enum"]), ctx.rng.choice(MODES)
+        flavour, mode = ctx.rng.choice(["legacy", "legacy20", "modular", "enum"]), ctx.rng.choice(MODES)
         tok = _tokenizer(flavour, mode); ctt = mode == "AOTP_CTT_indexed"
         for limit in [None, 0, 1, k, k + 3, -1, ctx.rng.randint(0, k + 1)]:
             for join in (False, True):
